@@ -16,7 +16,15 @@ func VerifC18_SessionLifecycle() {
 	s := vNewSessionless(ft)
 	password := vBytes(8)
 	bmcPassword := append([]byte{}, password...)
-	mode := vChoice(3) // 0 conforming BMC, 1 wrong password, 2 a handshake reply is lost
+	mode := vChoice(4) // 0 conforming BMC, 1 wrong password, 2 a handshake reply is lost, 3 a suite the BMC confirms but the library cannot use
+	suite := ipmi.CipherSuite3
+	if mode == 3 {
+		if vBool() {
+			suite.IntegrityAlgorithm = ipmi.IntegrityAlgorithm(3) // MD5-128 (not implemented by the library)
+		} else {
+			suite.ConfidentialityAlgorithm = ipmi.ConfidentialityAlgorithm(2) // xRC4-128
+		}
+	}
 	if mode == 1 {
 		x := vByte()
 		vAssume(x != 0)
@@ -49,7 +57,7 @@ func VerifC18_SessionLifecycle() {
 		return bmc.handle(req), nil
 	}
 	sess, err := s.NewV2Session(ctx, &V2SessionOpts{SessionOpts: SessionOpts{Password: password, MaxPrivilegeLevel: ipmi.PrivilegeLevelUser},
-		CipherSuites: []ipmi.CipherSuite{ipmi.CipherSuite3}})
+		CipherSuites: []ipmi.CipherSuite{suite}})
 	vAssert((err == nil) == (mode == 0), "c18-open-succeeds-exactly-against-the-conforming-bmc")
 	vAssert(vMetric("bmc_session_open_attempts_total") == 1, "c18-session-open-attempts-plus-one")
 	failed := 0
